@@ -295,3 +295,7 @@ mod tests {
         assert!(!registry.ident_exist(identity.as_bytes()));
     }
 }
+
+#[cfg(kani)]
+#[path = "/verif/kani/snap_control/identity_registry.rs"]
+mod verif_identity_registry;
